@@ -171,12 +171,15 @@ def d3(chk, prog):
     tb.done("SEG rows are not (ID, chrom, start+1, end, [probes], log2)")
     fe = prog.fn(f"{EXP}.export_seg")
     tb2 = Table(chk, "seg-columns", "export_seg: every file's rows under that file's sample id, in file order (1..3 files, with an empty table in any position)", fe.loc(), fe.qn)
-    for sizes in ([2], [0], [2, 1], [0, 1], [2, 0, 1], [1, 2, 0], [1, 1, 1]):
+    for sizes, no_probes in (([2], ()), ([0], ()), ([2, 1], ()), ([0, 1], ()), ([2, 0, 1], ()), ([1, 2, 0], ()), ([1, 1, 1], ()), ([2, 1], (1,)), ([1, 2, 1], (0,)), ([1, 1], (0, 1))):
         W.reset()
         files = [f"f{i}.cns" for i in range(len(sizes))]
         tables = {}
         for i, (f, n) in enumerate(zip(files, sizes)):
             rows = [dict(chromosome="chr1", start=Term.sym(f"s{i}_{j}", 0, INF, True), end=Term.sym(f"e{i}_{j}", 0, INF, True), gene="-", log2=Term.sym(f"v{i}_{j}"), probes=3 + j) for j in range(n)]
+            if i in no_probes:
+                for r in rows:
+                    del r["probes"]          # a segment table without probe counts (e.g. imported segments)
             g = make_ga("CopyNumArray", rows, {"sample_id": f"S{i}"}, exact=True)
             if not rows:
                 g.data = DF({c: Vec([], aligned=True) for c in ("chromosome", "start", "end", "gene", "log2", "probes")}, 0)
@@ -193,8 +196,13 @@ def d3(chk, prog):
         if isinstance(out, DF) and "ID" in out.cols and "loc.start" in out.cols:
             got = list(zip(out.cols["ID"].v, out.cols["loc.start"].v))
         ok = got is not None and len(got) == len(want) and all(g[0] == w[0] and same(g[1], t_add(Term.sym(w[1][:-2]), Term.const(1))) for g, w in zip(got, want))
-        tb2.cell(ok, dict(table_sizes=sizes, got=[(a, repr(b)) for a, b in got] if got is not None else repr(out)[:80], want=want))
-    tb2.done("export seg does not list every sample's segments under that sample's own id, in file order")
+        # probe counts: present for every sample that has them (missing only for the rows of a table without the column)
+        want_marks = [(3 + j) if i not in no_probes else None for i, n in enumerate(sizes) for j in range(n)]
+        if ok and any(m is not None for m in want_marks):
+            marks = list(out.cols["num.mark"].v) if "num.mark" in out.cols else None
+            ok = marks is not None and len(marks) == len(want_marks) and all((m is None and w is None) or (w is not None and same(m, w)) for m, w in zip(marks, want_marks))
+        tb2.cell(ok, dict(table_sizes=sizes, tables_without_probes=list(no_probes), num_mark=[repr(x) for x in out.cols["num.mark"].v] if isinstance(out, DF) and "num.mark" in out.cols else None, got=[(a, repr(b)) for a, b in got] if got is not None else repr(out)[:80], want=want))
+    tb2.done("export seg does not list every sample's segments (with their probe counts) under that sample's own id, in file order")
 
 
 def d4(chk, prog):
@@ -267,6 +275,7 @@ MUTANTS = [
     dict(name="vcf: END from start", file=_E, old='            f"END={out_row.end}",', new='            f"END={out_row.start}",'),
     dict(name="vcf: sexes swapped at absolute_expect", file=_E, old='        abs_expect = call.absolute_expect(segments, ploidy, diploid_parx_genome, is_sample_female)\n    else:', new='        abs_expect = call.absolute_expect(segments, ploidy, diploid_parx_genome, is_haploid_x_reference)\n    else:'),
     dict(name="seg: probes not renamed", file="skgenome/tabio/seg.py", old='        rename_cols["probes"] = "num.mark"  # or num_probes\n', new=""),
+    dict(name="seeded C20f: SEG tables concatenated on their common columns only", file="skgenome/tabio/seg.py", old="    return pd.concat(results)\n", new="    return pd.concat(results, join=\"inner\")\n"),
     dict(name="seeded C20c: export_seg drops empty tables, ids no longer paired", file="cnvlib/export.py", old="    out_table = tabio.seg.write_seg(dframes, sample_ids, chrom_ids)\n", new="    dframes = [dframe for dframe in dframes if len(dframe)]\n    out_table = tabio.seg.write_seg(dframes, sample_ids, chrom_ids)\n"),
     dict(name="export_seg reverses the ids", file="cnvlib/export.py", old="    out_table = tabio.seg.write_seg(dframes, sample_ids, chrom_ids)\n", new="    out_table = tabio.seg.write_seg(dframes, sample_ids[::-1], chrom_ids)\n"),
     dict(name="twin: export_seg builds the two lists with a loop", expect="silent", file="cnvlib/export.py", old="    dframes, sample_ids = zip(*(_load_seg_dframe_id(fname) for fname in sample_fnames))\n", new="    dframes, sample_ids = [], []\n    for fname in sample_fnames:\n        table, name = _load_seg_dframe_id(fname)\n        dframes.append(table)\n        sample_ids.append(name)\n"),
